@@ -448,7 +448,7 @@ def run(tier, seed):
     # ---- A': unbounded facts about PQ (every capacity, cost set, policy) by TLAPS: TypeOK inductive, only an extremal element
     # leaves the queue, nothing is lost, keys only improve, a returned element comes back only by Insert
     import subprocess
-    pr = subprocess.run([os.path.join(H.VERIF, "bin", "prove")], capture_output=True, text=True, timeout=1200)
+    pr = subprocess.run([os.path.join(H.VERIF, "bin", "prove"), "PQProofs"], capture_output=True, text=True, timeout=1200)
     m = re.search(r"All (\d+) obligations proved", pr.stdout)
     if pr.returncode == 0 and m:
         rep.cov["tlaps"] = {"module": "spec/proofs/PQProofs.tla", "obligations_proved": int(m.group(1)), "theorems": ["TypeInvariant", "ExtremalStep", "StepFacts"]}
